@@ -52,6 +52,16 @@ func loadedFields(v ssa.Value, out map[string]bool, depth int) {
 	case *ssa.BinOp:
 		loadedFields(x.X, out, depth+1)
 		loadedFields(x.Y, out, depth+1)
+	case *ssa.Call:
+		// an accessor (`s.peekAt(1)`): the fields its expression loads, and its arguments
+		if f := x.Common().StaticCallee(); f != nil {
+			if ret, ok := ssax.PureExprFunc(f); ok {
+				loadedFields(ret, out, depth+1)
+				for _, arg := range x.Common().Args {
+					loadedFields(arg, out, depth+1)
+				}
+			}
+		}
 	}
 }
 
